@@ -40,6 +40,7 @@ pub const DEPTH_OPS: &[&str] = &[
     "array_distinct_deep",
     "exists_keys_deep",
     "inspect_deep",
+    "type_of_text_deep",
 ];
 pub const SHAPES: &[&str] = &["arrays", "objects", "alternating"];
 pub const LADDER: &[u64] = &[1, 2, 10, 100, 1_000, 10_000, 100_000, 300_000];
@@ -75,9 +76,14 @@ pub enum Case {
 }
 
 pub struct Limits {
-    /// per known finding and build: the smallest crashing depth measured on a 1 MiB stack
-    pub floors: BTreeMap<String, BTreeMap<String, u64>>,
+    /// per known finding: (build, stack MiB) -> the smallest crashing depth measured by `sim limits-floors`
+    pub floors: BTreeMap<String, BTreeMap<(String, u64), u64>>,
 }
+
+/// A crash is covered by its recorded finding only from this fraction of the recorded depth on.
+const COVER_NUM: u64 = 85;
+/// Probe cases run at this fraction of the recorded depth and must complete.
+const PROBE_NUM: u64 = 80;
 
 impl Limits {
     pub fn new() -> Limits {
@@ -87,8 +93,15 @@ impl Limits {
             if let Ok(j) = serde_json::from_str::<J>(&txt) {
                 for f in j["findings"].as_array().cloned().unwrap_or_default() {
                     if f["property"] == "C20" && f["status"] == "known" {
-                        if let (Some(k), Some(d)) = (f["key"].as_str(), f["min_crash_depth_1mib"].as_object()) {
-                            let per: BTreeMap<String, u64> = d.iter().filter_map(|(b, v)| v.as_u64().map(|v| (b.clone(), v))).collect();
+                        if let (Some(k), Some(d)) = (f["key"].as_str(), f["min_crash_depth"].as_object()) {
+                            let mut per = BTreeMap::new();
+                            for (build, stacks) in d {
+                                for (mib, depth) in stacks.as_object().cloned().unwrap_or_default() {
+                                    if let (Ok(m), Some(v)) = (mib.parse::<u64>(), depth.as_u64()) {
+                                        per.insert((build.clone(), m), v);
+                                    }
+                                }
+                            }
                             floors.insert(k.to_string(), per);
                         }
                     }
@@ -98,16 +111,27 @@ impl Limits {
         Limits { floors }
     }
 
-    /// A recorded finding covers a crash only if it happens no earlier than half the depth expected
-    /// for this build and stack (crash depth grows linearly with the stack budget).
+    /// A recorded finding covers a crash only at or beyond 85 % of the smallest crashing depth recorded
+    /// for the same build and stack budget; an earlier crash is a new violation.
     fn covered(&self, key: &str, build: &str, stack: u64, depth: u64) -> bool {
-        match self.floors.get(key).and_then(|per| per.get(build)) {
-            Some(floor) => {
-                let expected = (*floor as u128 * stack as u128 / (1u128 << 20)) as u64;
-                depth.saturating_mul(2) >= expected
-            }
+        match self.floors.get(key).and_then(|per| per.get(&(build.to_string(), stack >> 20))) {
+            Some(floor) => depth * 100 >= *floor * COVER_NUM,
             None => false,
         }
+    }
+
+    /// Probe cases: just below every recorded crashing depth the operation must still complete.
+    fn probes(&self) -> Vec<Case> {
+        let mut v = vec![];
+        for (key, per) in &self.floors {
+            let mut parts = key.splitn(3, ':');
+            let (_, op, shape) = (parts.next(), parts.next().unwrap_or(""), parts.next().unwrap_or(""));
+            for ((build, mib), floor) in per {
+                let depth = (*floor * PROBE_NUM / 100).max(1);
+                v.push(Case::Depth { op: op.to_string(), shape: shape.to_string(), depth, stack: *mib << 20, build: build.clone() });
+            }
+        }
+        v
     }
 }
 
@@ -381,6 +405,11 @@ fn run_depth_op(op: &str, shape: &str, depth: u64) -> String {
             let b = deep_jsonb(shape, depth);
             let _ = (jsonb::type_of(&b).is_ok(), jsonb::array_length(&b), jsonb::is_array(&b), jsonb::is_object(&b), jsonb::is_null(&b), jsonb::as_str(&b).is_some(), jsonb::as_number(&b).is_some());
             "completed".into()
+        }
+        // type_of decides JSON text by its first byte: no parse, no recursion today
+        "type_of_text_deep" => {
+            let t = deep_text(shape, depth);
+            res_name(jsonb::type_of(&t))
         }
         other => format!("harness:unknown_op:{other}"),
     }
@@ -678,24 +707,30 @@ pub fn floors_main() -> i32 {
             handles.push(std::thread::spawn(move || {
                 let mut per = serde_json::Map::new();
                 for build in BUILDS {
-                    let crashes = |d: u64| -> bool {
-                        let c = Case::Depth { op: op.clone(), shape: shape.clone(), depth: d, stack: 1 << 20, build: build.to_string() };
-                        matches!(run_child(&c, 120), ChildOutcome::StackOverflow)
-                    };
-                    let top = if op == "to_pretty_string" { PRETTY_MAX_DEPTH } else { 300_000 };
-                    if !crashes(top) {
-                        continue;
-                    }
-                    let (mut lo, mut hi) = (1u64, top); // lo completes, hi crashes
-                    while hi - lo > 1 {
-                        let mid = (lo + hi) / 2;
-                        if crashes(mid) {
-                            hi = mid;
-                        } else {
-                            lo = mid;
+                    let mut stacks = serde_json::Map::new();
+                    for mib in [1u64, 2, 4, 8] {
+                        let crashes = |d: u64| -> bool {
+                            let c = Case::Depth { op: op.clone(), shape: shape.clone(), depth: d, stack: mib << 20, build: build.to_string() };
+                            matches!(run_child(&c, 120), ChildOutcome::StackOverflow)
+                        };
+                        let top = if op == "to_pretty_string" { PRETTY_MAX_DEPTH } else { 300_000 };
+                        if !crashes(top) {
+                            continue;
                         }
+                        let (mut lo, mut hi) = (1u64, top); // lo completes, hi crashes
+                        while hi - lo > 1 {
+                            let mid = (lo + hi) / 2;
+                            if crashes(mid) {
+                                hi = mid;
+                            } else {
+                                lo = mid;
+                            }
+                        }
+                        stacks.insert(mib.to_string(), json!(hi));
                     }
-                    per.insert(build.to_string(), json!(hi));
+                    if !stacks.is_empty() {
+                        per.insert(build.to_string(), J::Object(stacks));
+                    }
                 }
                 (op, shape, per)
             }));
@@ -706,9 +741,9 @@ pub fn floors_main() -> i32 {
             if per.is_empty() {
                 continue;
             }
-            let least = per.values().filter_map(|v| v.as_u64()).min().unwrap_or(0);
-            rows.push(json!({"property": "C20", "key": format!("stack_overflow:{op}:{shape}"), "status": "known", "min_crash_depth_1mib": per,
-                "what": format!("{op} on {shape} nested {least} or more levels deep (1 MiB stack; proportionally deeper on larger stacks) dies of stack exhaustion: unbounded recursion on nesting depth"),
+            let least = per.values().filter_map(|b| b.as_object()).flat_map(|b| b.values()).filter_map(|v| v.as_u64()).min().unwrap_or(0);
+            rows.push(json!({"property": "C20", "key": format!("stack_overflow:{op}:{shape}"), "status": "known", "min_crash_depth": per,
+                "what": format!("{op} on {shape} nested {least} or more levels deep (smallest over the recorded builds and 1-8 MiB stacks) dies of stack exhaustion: unbounded recursion on nesting depth"),
                 "repro": format!("sim limits-child '{{\"kind\":\"depth\",\"op\":\"{op}\",\"shape\":\"{shape}\",\"depth\":300000,\"stack_bytes\":1048576,\"build\":\"shipped\"}}'")}));
         }
     }
@@ -733,7 +768,7 @@ impl Scenario for Limits {
         0xC20
     }
     fn runs(&self, tier: &str) -> u64 {
-        let fixed = Limits::plan().len() as u64;
+        let fixed = (Limits::plan().len() + self.probes().len()) as u64;
         if tier == "thorough" {
             fixed + 16_000
         } else {
@@ -742,7 +777,8 @@ impl Scenario for Limits {
     }
 
     fn gen(&self, seed: u64, run: u64) -> Case {
-        let plan = Limits::plan();
+        let mut plan = Limits::plan();
+        plan.extend(self.probes());
         if (run as usize) < plan.len() {
             return plan[run as usize].clone();
         }
@@ -926,7 +962,7 @@ impl Scenario for Limits {
         vec![
             "stack budgets 8 MiB (main-thread default) and 2 MiB (Rust's spawned-thread default), plus 1 and 4 MiB in seeded cases; the largest input is about 4 MB".into(),
             "to_pretty_string is exercised only up to 20,000 levels because its output is quadratic in depth".into(),
-            "a known stack-exhaustion finding records, per build, the smallest crashing depth on a 1 MiB stack; it covers a crash only at or beyond half the depth expected for the case's build and stack (linear in the stack budget); an earlier crash is reported as a new violation".into(),
+            "a known stack-exhaustion finding records the smallest crashing depth per build and per stack budget (1, 2, 4, 8 MiB); it covers a crash only at or beyond 85 % of the depth recorded for the case's build and stack; an earlier crash is a new violation, and probe cases at 80 % of every recorded depth must complete".into(),
             "extreme-index results are compared with the tree model for the record only; the property judges crash vs no crash".into(),
         ]
     }
